@@ -2,6 +2,7 @@
 #include "rkcommon/utility/Optional.h"
 #include "rkcommon/utility/Any.h"
 #include <string>
+#include <utility>
 #include <vector>
 
 namespace rkverif {
@@ -88,5 +89,18 @@ namespace rkverif {
     (void)a.is<float>();
     (void)a.valid();
     (void)a.toString();
+  }
+
+  // R-C09-9: copying / assigning an Any of every value category must select the copy members, never the value templates
+  inline void any_value_categories(Any &l, const Any &cl)
+  {
+    Any fromLvalue(l);
+    Any fromConstLvalue(cl);
+    Any fromRvalue(std::move(l));
+    Any fromConstRvalue(static_cast<const Any &&>(cl));
+    fromLvalue      = l;
+    fromConstLvalue = cl;
+    fromRvalue      = std::move(l);
+    fromConstRvalue = static_cast<const Any &&>(cl);
   }
 }  // namespace rkverif
